@@ -555,6 +555,11 @@ def run(rep, tier):
         clause_format(facts, rep, tier)
         from .. import narrowing
         narrowing.check(facts, rep, 'E3.lossless-narrowing', ('ftoa.h',), bounds={('FormatSignificand', 'sig'): 10 ** 17}, min_sites=2)
+    # the digit-table / digit-character range rules of the double formatter are decided together with the evaluation of
+    # the formatting stage on the current source (E5.format): a range proof that cannot be rebuilt for a new spelling
+    # of the branches is a note, not a verdict
+    for r_ in ('E3.kdigits-index', 'E3.digit-char'):
+        rep.corroborate(r_, 'E5.format', only=lambda v: 'ftoa.h' in (v.get('loc') or ''))
     rep.trust('clang 14 front end and constant evaluator', 'Python big integers / fractions',
               'contract: the decimal significand handed to FormatSignificand has at most 17 digits (< 10^17)',
               'contract: the decimal exponent of a finite double produced by F64ToDecimal lies in [-343, 308]')
